@@ -1,0 +1,93 @@
+//go:build verif
+
+// Contracts for the deductive verifier in /verif (gocv). Comment-only file.
+// Ghost fields of leveldb.Batch (contracts/_external/leveldb.go in /verif): n = records appended, written = handed to
+// DB.Write successfully. A freshly made batch has n == 0 and is not written.
+
+package mocktikv
+
+// A command that answers "done" has handed every record it produced to the database: nothing it decided is lost.
+//@ func (*MVCCLevelDB) Cleanup
+//@   prop C12
+//@   opaque-callee getTxnCommitInfo Decode newIterator CleanUp lockErr
+//@   ensures persisted: result == nil ==> batch.n == 0 || batch.written
+
+//@ func (*MVCCLevelDB) Commit
+//@   prop C12
+//@   opaque-callee CleanUp
+//@   ensures persisted: result == nil ==> batch.written
+
+//@ func (*MVCCLevelDB) Rollback
+//@   prop C12
+//@   opaque-callee CleanUp
+//@   ensures persisted: result == nil ==> batch.written
+
+// commitLock turns the lock into a write record at the commit timestamp and removes the lock: two records.
+//@ func commitLock
+//@   prop C12
+//@   opaque-callee MarshalBinary mvccEncode
+//@   modifies leveldb.Batch.n of batch
+//@   ensures result == nil ==> batch.n == old(batch.n) + 2
+//@   ensures result != nil ==> batch.n == old(batch.n)
+
+//@ func writeRollback
+//@   prop C12
+//@   opaque-callee MarshalBinary mvccEncode
+//@   modifies leveldb.Batch.n of batch
+//@   ensures result == nil ==> batch.n == old(batch.n) + 1
+//@   ensures result != nil ==> batch.n == old(batch.n)
+
+//@ func rollbackLock
+//@   prop C12
+//@   opaque-callee mvccEncode
+//@   modifies leveldb.Batch.n of batch
+//@   ensures result == nil ==> batch.n == old(batch.n) + 2
+//@   ensures result != nil ==> batch.n == old(batch.n)
+
+// commitKey: the lock is committed only if it belongs to this transaction and its min-commit-ts allows the commit
+// timestamp; "done" without a new record means the transaction is already committed on this key (never: rolled back).
+//@ func commitKey
+//@   prop C12
+//@   opaque-callee Decode newIterator getTxnCommitInfo mvccEncode Release
+//@   modifies leveldb.Batch.n of batch
+//@   at call(commitLock) assert own: dec.lock.startTS == startTS && dec.lock.minCommitTS <= commitTS && arg_startTS == startTS && arg_commitTS == commitTS && arg_batch == batch
+//@   ensures committed: result == nil && batch.n == old(batch.n) ==> ok && c.valueType != typeRollback
+//@   ensures written: result == nil ==> batch.n == old(batch.n) || batch.n == old(batch.n) + 2
+
+// rollbackKey: only this transaction's own lock is removed; "done" without a new record means it is already rolled
+// back; "already committed" is answered only from a commit record; otherwise a rollback marker is added.
+//@ func rollbackKey
+//@   prop C12
+//@   opaque-callee Decode newIterator getTxnCommitInfo mvccEncode Release MarshalBinary Valid
+//@   modifies leveldb.Batch.n of batch
+//@   at call(rollbackLock) assert own: dec.lock.startTS == startTS && arg_startTS == startTS && arg_batch == batch
+//@   ensures rolledback: result == nil && batch.n == old(batch.n) ==> ok && c.valueType == typeRollback
+//@   ensures marker: result == nil ==> batch.n >= old(batch.n)
+
+// A lock blocks a reader exactly when it is a write lock (not a lock-only or pessimistic lock) of a transaction that
+// started at or before the reader, the reader is not a latest-version point read (those pass only for the lock's own primary; the comparison of the two byte
+// strings is not modelled), and the reader has not been told to ignore it. A latest-version read of the primary reads just below the lock.
+//@ func (*mvccLock) check
+//@   prop C12
+//@   modifies nothing
+//@   loop 1 invariant scanned: -1 <= rangeindex && rangeindex < len(resolvedLocks) && forall i int :: 0 <= i && i <= rangeindex ==> resolvedLocks[i] != l.startTS
+//@   ensures pass: result1 == nil ==> l.startTS > ts || l.op == kvrpcpb.Op_Lock || l.op == kvrpcpb.Op_PessimisticLock || ts == 18446744073709551615 || exists i int :: 0 <= i && i < len(resolvedLocks) && resolvedLocks[i] == l.startTS
+//@   ensures block: result1 != nil ==> l.startTS <= ts && l.op != kvrpcpb.Op_Lock && l.op != kvrpcpb.Op_PessimisticLock && forall i int :: 0 <= i && i < len(resolvedLocks) ==> resolvedLocks[i] != l.startTS
+//@   ensures ts: result1 == nil ==> result0 == ts || (ts == 18446744073709551615 && result0 == uint64(l.startTS - 1))
+
+// A read returns nothing newer than its timestamp, and never a rollback marker, a lock-only record or a deletion.
+//@ func getValue
+//@   prop C12
+//@   opaque-callee Decode Valid
+//@   ensures visible: result1 == nil && result0.commitTS != 0 ==> result0.commitTS <= startTS && result0.valueType != typeRollback && result0.valueType != typeLock && result0.valueType != typeDelete
+
+// CheckTxnStatus removes a lock only when its time-to-live has elapsed on the caller's clock, and only the lock of the
+// transaction asked about; a live lock gets its min-commit-ts pushed above the caller at most; "committed" is answered
+// only from a commit record.
+//@ func (*MVCCLevelDB) CheckTxnStatus
+//@   prop C12
+//@   opaque-callee Decode newIterator getTxnCommitInfo mvccEncode Release MarshalBinary Valid pessimisticRollbackKey
+//@   at call(rollbackLock) assert expired: uint64(uint64(oracle.ExtractPhysical(lock.startTS)) + lock.ttl) < uint64(oracle.ExtractPhysical(currentTS)) && lock.startTS == lockTS && arg_startTS == lockTS
+//@   at call(pessimisticRollbackKey) assert expired: uint64(uint64(oracle.ExtractPhysical(lock.startTS)) + lock.ttl) < uint64(oracle.ExtractPhysical(currentTS)) && lock.startTS == lockTS && lock.op == kvrpcpb.Op_PessimisticLock
+//@   at call(Put) assert pushed: lock.minCommitTS >= callerStartTS + 1 && lock.startTS == lockTS
+//@   ensures exclusive: err == nil ==> !(ttl > 0 && commitTS > 0)
